@@ -60,9 +60,9 @@ func (s *streamWS) SendMsg(v interface{}) error {
 	reply := v.(proto.Message)
 	//ctx := s.ctx
 
-	cur := reply.ProtoReflect()
-	for _, fd := range s.method.resp {
-		cur = cur.Mutable(fd).Message()
+	cur, err := mutablePath(reply.ProtoReflect(), s.method.resp)
+	if err != nil {
+		return err
 	}
 	msg := cur.Interface()
 
@@ -83,9 +83,9 @@ func (s *streamWS) RecvMsg(m interface{}) error {
 	args := m.(proto.Message)
 
 	if s.method.hasBody {
-		cur := args.ProtoReflect()
-		for _, fd := range s.method.body {
-			cur = cur.Mutable(fd).Message()
+		cur, err := mutablePath(args.ProtoReflect(), s.method.body)
+		if err != nil {
+			return err
 		}
 
 		msg := cur.Interface()
